@@ -4264,3 +4264,119 @@ func init() {
 			return out
 		}})
 }
+
+// MAXLEVP — a function that works at a given auxiliary level does not hand the parameters' maximum to its callees.
+//
+// Gadget products run at the level of the key (`levelP := gadgetCt.LevelP()`): the number of auxiliary primes per
+// digit is levelP+1. Passing `eval.params.PCount()` instead is the same number for keys generated at the maximum level
+// — every key the tests use — and a different decomposition for any key generated with fewer auxiliary primes.
+//
+// Rule: in a function that has a parameter or local named levelP which is not itself defined from PCount()/MaxLevelP(),
+// no call argument contains a call of PCount() or MaxLevelP().
+func scanMaxLevP(c *core.Ctx) []ob {
+	var out []ob
+	n := 0
+	c.FuncDecls(func(pk *packages.Package, file *ast.File, fd *ast.FuncDecl) {
+		if fd.Body == nil || fileIsTestSupport(c.Program, fd.Pos()) || inExamples(pk) {
+			return
+		}
+		info := pk.TypesInfo
+		isMax := func(e ast.Node) *ast.CallExpr {
+			var r *ast.CallExpr
+			ast.Inspect(e, func(x ast.Node) bool {
+				if call, ok := x.(*ast.CallExpr); ok && r == nil {
+					if se, ok := call.Fun.(*ast.SelectorExpr); ok && (se.Sel.Name == "PCount" || se.Sel.Name == "MaxLevelP") && len(call.Args) == 0 {
+						r = call
+					}
+				}
+				return r == nil
+			})
+			return r
+		}
+		has := false
+		fromMax := false
+		defPos := token.NoPos
+		for _, f := range fd.Type.Params.List {
+			for _, nm := range f.Names {
+				if nm.Name == "levelP" {
+					has = true
+					defPos = fd.Body.Pos()
+				}
+			}
+		}
+		ast.Inspect(fd.Body, func(x ast.Node) bool {
+			if as, ok := x.(*ast.AssignStmt); ok {
+				for i, l := range as.Lhs {
+					if id, ok := l.(*ast.Ident); ok && id.Name == "levelP" {
+						has = true
+						if defPos == token.NoPos {
+							defPos = as.End()
+						}
+						if len(as.Rhs) == len(as.Lhs) && isMax(as.Rhs[i]) != nil {
+							fromMax = true
+						} else if len(as.Rhs) == 1 && isMax(as.Rhs[0]) != nil {
+							fromMax = true
+						}
+					}
+				}
+			}
+			return true
+		})
+		if !has || fromMax {
+			return
+		}
+		n++
+		fkey := core.FuncKey(pk, fd)
+		key := "MAXLEVP:" + fkey
+		var bad *ast.CallExpr
+		var callee string
+		ast.Inspect(fd.Body, func(x ast.Node) bool {
+			call, ok := x.(*ast.CallExpr)
+			if !ok || bad != nil {
+				return bad == nil
+			}
+			if call.Pos() < defPos {
+				return true
+			}
+			for _, a := range call.Args {
+				if m := isMax(a); m != nil {
+					bad = m
+					callee = exprString(call.Fun)
+					break
+				}
+			}
+			return true
+		})
+		_ = info
+		if bad == nil {
+			out = append(out, withProps(okOb("MAXLEVP", key, c.Rel(fd.Pos()), "no callee receives the parameters' maximum auxiliary level", true), maxLevProps(fkey)...))
+		} else {
+			out = append(out, withProps(violOb("MAXLEVP", key, c.Rel(bad.Pos()), fmt.Sprintf("%s works at the auxiliary level levelP but passes %s to %s: the parameters' maximum equals the working level only for keys generated with every auxiliary prime", fkey, exprString(bad), callee)), maxLevProps(fkey)...))
+		}
+	})
+	c.Stats["maxlevp_fns"] = n
+	return out
+}
+
+func maxLevProps(fkey string) []string {
+	ps := append([]string{}, propsForKey(fkey)...)
+	if strings.HasPrefix(fkey, "core/rlwe") && !containsStr(ps, "C02") {
+		ps = append(ps, "C02")
+	}
+	return ps
+}
+
+func init() {
+	core.Register(&core.Rule{Name: "MAXLEVP", Wide: true, Props: []string{"C02", "C04"},
+		Doc: "in a function with a parameter or local named levelP that is not defined from PCount()/MaxLevelP(), no call argument after that definition contains PCount() or MaxLevelP()",
+		Run: func(c *core.Ctx) []ob {
+			out := scanMaxLevP(c)
+			for _, o := range control(c, "MAXLEVP", scanMaxLevP, "lvfixture.digitProduct") {
+				out = append(out, withProps(o, "C02", "C04"))
+			}
+			for _, o := range core.Floor("MAXLEVP", nil, "functions working at an auxiliary level levelP", c.Stats["maxlevp_fns"], 20) {
+				out = append(out, withProps(o, "C02", "C04"))
+			}
+			return out
+		}})
+}
